@@ -509,7 +509,10 @@ def addr_to_pubkeyhash(address, as_hex=False, encoding=None):
     if encoding == 'base58' or encoding is None:
         try:
             pkh = addr_base58_to_pubkeyhash(address, as_hex)
-        except EncodingError:
+        except (EncodingError, AssertionError):
+            # A failed base58 checksum (AssertionError) must not keep a bech32 address from being tried
+            if encoding == 'base58':
+                raise
             pkh = None
         if pkh is not None:
             return pkh
